@@ -768,6 +768,22 @@ def run_request(req):
     raw = fork_map(_job_run, jobs, workers, wall)
     recs = [_fix_child_error(r, j["id"]) for r, j in zip(raw, jobs)]
     fails = [i for i, r in enumerate(recs) if r["outcome"] == "FAIL"]
+    cap = req.get("max_fails_per_sig")
+    if cap and fails:
+        # A breaking change can make hundreds of mutants fail the same way; shrink and confirm only the
+        # `cap` smallest programs of every failure signature (corpus programs, id "c…", always).
+        groups = {}
+        for i in fails:
+            groups.setdefault(tuple(sig(recs[i])), []).append(i)
+        keep = set()
+        for idxs in groups.values():
+            idxs.sort(key=lambda i: (len(jobs[i]["src"]), i))
+            keep.update(idxs[:int(cap)])
+        keep.update(i for i in fails if jobs[i]["id"].startswith("c"))
+        for i in fails:
+            if i not in keep:
+                recs[i]["same_signature_not_shrunk"] = True
+        fails = sorted(keep)
     if req.get("shrink") and fails:
         sjobs = [dict(jobs[i], rec=recs[i]) for i in fails]
         shr = fork_map(shrink_job, sjobs, workers, wall * 4)
